@@ -161,6 +161,9 @@ pub trait Observable<Item, Err, O: Observer<Item, Err>>: Sized {
 // other; two cells created by two `own` calls are never provably the same, even with equal content.
 pub struct MutRc<T>(pub T, pub Ghost<int>);
 pub struct MutArc<T>(pub T, pub Ghost<int>);
+// probe files only (rule R13): a last use of a guard binding, giving the borrow checker the scope of
+// the real Ref / RefMut / MutexGuard temporary
+pub fn hold_<T>(_g: &T) {}
 impl<T> MutRc<T> {
   pub fn rc_deref_mut(&mut self) -> (r: &mut T)
     ensures *r == old(self).0, *final(r) == final(self).0, final(self).1 == old(self).1,
